@@ -18,6 +18,14 @@ Layout stream (behavioural): programs whose nested record types and outer record
 one and two levels of `@import`, under every `default_deriving`, relying on the default or repeating it; the deriving set
 the real front end gives each record is compared with `c09.deriving`, the imported records and the records that hold
 them are compiled and run like all others.
+Regeneration stream (behavioural): the output directory has a history — records are generated, their declaration is edited
+(`EDITS`: swap two fields, swap the types of two fields, i16/i32/i64 exchanged, a field renamed to an equally long name, two
+fields of one type swapped — all of which keep the length of the generated files — and deriving changed, a field renamed,
+dropped, added) and generated again into the same directories, by a second API object or by the same configured context;
+the drivers are built from the *edited* declaration, compiled against what is on disk and judged like all others.
+Every driver also reads every field back by its declared name (C++ member, Java reflection): the value must be the one
+given for the field's position in the declaration — the link between "the order of the declaration" and the object
+(`c09.spec` clause; `field_order_matters`).
 Name stream (behavioural): the field names are the identifiers the *generated* record code itself uses as simple names
 (`body_identifiers`: parameters and locals of the emitted bodies — `other`, `obj`, `lhs`, `rhs`, `value`, `hashCode`,
 `tempResult` … —, roots of qualified names, called functions; read off the tokens of a probe generation, filtered by the
@@ -71,6 +79,8 @@ THEOREMS = [
     "Pydjinni.Gen.default_eq_emitted",
     "Pydjinni.Gen.default_ord_emitted",
     "Pydjinni.Gen.withDefault_none",
+    "Pydjinni.Gen.stale_field_order_counterexample",
+    "Pydjinni.Gen.field_order_matters",
 ]
 LEVEL = "proof"
 TRUSTED = (
@@ -430,7 +440,14 @@ def draw_tuples(r: random.Random, rec, pools, m: int, budget: int = 26):
 # drivers
 # ---------------------------------------------------------------------------------------------
 
-def cpp_driver(rec, info, names, pools, tuples, has_eq, has_ord) -> str:
+def comparable(ty, inner) -> bool:
+    """can a value of this type be compared with `==` / `equals` whatever the record derives? (records: only those deriving eq)"""
+    if ty["k"] == "list":
+        return comparable(ty["elem"], inner)
+    return ty["k"] != "record" or bool((inner or INNER)[ty["name"]]["eq"])
+
+
+def cpp_driver(rec, info, names, pools, tuples, has_eq, has_ord, inner=None) -> str:
     T = info["type_names"]["cpp_typename"]
     tys = [parse_type(t) for _, t in rec["fields"]]
     lines = ["#include <cstdio>", "#include <vector>", "#include <string>", "#include <optional>", "#include <cstdint>",
@@ -438,6 +455,12 @@ def cpp_driver(rec, info, names, pools, tuples, has_eq, has_ord) -> str:
     for tup in tuples:
         args = ", ".join(cpp_lit(ty, x, names, pools) for ty, x in zip(tys, tup))
         lines.append(f"  v.push_back({T}({args}));")
+    # every field read back by its declared name: does it hold the value given for its position in the declaration?
+    held = [k for k, ty in enumerate(tys) if comparable(ty, inner)]
+    for i, tup in enumerate(tuples):
+        if held:
+            lines.append(f'  std::printf("F {i}' + ' %d' * len(held) + '\\n"' +
+                         "".join(f", (int)(v[{i}].{info['names']['cpp'][k]} == {cpp_lit(tys[k], tup[k], names, pools)})" for k in held) + ");")
     lines.append("  for (size_t i = 0; i < v.size(); ++i) for (size_t j = 0; j < v.size(); ++j) {")
     cols = []
     if has_eq:
@@ -450,17 +473,27 @@ def cpp_driver(rec, info, names, pools, tuples, has_eq, has_ord) -> str:
     return "\n".join(lines) + "\n"
 
 
-def java_driver(cls, rec, info, names, pools, tuples, has_eq, has_cmp, has_str) -> str:
+def java_driver(cls, rec, info, names, pools, tuples, has_eq, has_cmp, has_str, inner=None) -> str:
     T = info["type_names"]["java_typename"]
     tys = [parse_type(t) for _, t in rec["fields"]]
     L = [f"public class {cls} {{",
          "  static String exc(Throwable e) { return e instanceof NullPointerException ? \"npe\" : e.getClass().getSimpleName(); }",
+         "  static String held(Object o, String name, Object want) {",
+         "    try { java.lang.reflect.Field f = o.getClass().getDeclaredField(name); f.setAccessible(true);",
+         "          return java.util.Objects.deepEquals(f.get(o), want) ? \"1\" : \"0\"; }",
+         "    catch (ReflectiveOperationException | RuntimeException e) { return \"0\"; }",
+         "  }",
          "  @SuppressWarnings({\"unchecked\", \"rawtypes\"})",
          "  public static void main(String[] args) {",
          f"    {T}[] v = new {T}[] {{"]
     for tup in tuples:
         L.append(f"      new {T}(" + ", ".join(java_lit(ty, x, names, pools) for ty, x in zip(tys, tup)) + "),")
     L.append("    };")
+    # every field read back by its declared name: does it hold the value given for its position in the declaration?
+    held = [k for k, ty in enumerate(tys) if comparable(ty, inner)]
+    for i, tup in enumerate(tuples):
+        if held:
+            L.append(f'    System.out.println("F {i}"' + "".join(f' + " " + held(v[{i}], "{info["names"]["java"][k]}", {java_lit(tys[k], tup[k], names, pools)})' for k in held) + ");")
     L.append("    for (int i = 0; i < v.length; i++) {")
     if has_eq:
         L.append('      try { System.out.println("H " + i + " " + v[i].hashCode()); } catch (RuntimeException e) { System.out.println("H " + i + " " + exc(e)); }')
@@ -518,10 +551,14 @@ def parse_outputs(obs, m, has_eq, has_ord, has_cmp):
     """-> the shape of the `c09.eval` answer"""
     pairs = {(i, j): {"i": i, "j": j, "cpp": {}, "java": {}} for i in range(m) for j in range(m)}
     hashes, strs = [None] * m, [None] * m
+    held = {}
     c = obs.get("cpp")
     if c and c.get("compiled") and c.get("rc") == 0:
         for line in c["out"].splitlines():
             p = line.split()
+            if p[0] == "F":
+                held.setdefault("cpp", [None] * m)[int(p[1])] = [x == "1" for x in p[2:]]
+                continue
             i, j, vals = int(p[0]), int(p[1]), [x == "1" for x in p[2:]]
             names = (["eq", "ne"] if has_eq else []) + (["lt", "gt", "le", "ge"] if has_ord else [])
             pairs[(i, j)]["cpp"] = dict(zip(names, vals))
@@ -535,6 +572,9 @@ def parse_outputs(obs, m, has_eq, has_ord, has_cmp):
             elif tag == "S":
                 i, _, s = rest.partition(" ")
                 strs[int(i)] = s
+            elif tag == "F":
+                p = rest.split(" ")
+                held.setdefault("java", [None] * m)[int(p[0])] = [x == "1" for x in p[1:]]
             elif tag == "P":
                 i, j, e, cval = rest.split(" ")
                 jd = {}
@@ -543,7 +583,7 @@ def parse_outputs(obs, m, has_eq, has_ord, has_cmp):
                 if cval != "-":
                     jd["compare"] = int(cval) if re.fullmatch(r"-?\d+", cval) else cval
                 pairs[(int(i), int(j))]["java"] = jd
-    return {"pairs": [pairs[k] for k in sorted(pairs)], "hash": hashes, "str": strs}
+    return {"pairs": [pairs[k] for k in sorted(pairs)], "hash": hashes, "str": strs, "held": held}
 
 
 # ---------------------------------------------------------------------------------------------
@@ -620,7 +660,7 @@ def layout_decls(records, layout):
 
 def behaviour_idl(records, layout=None):
     """the program text — or, for a layout, {relative path: text} with the root `m.djinni`"""
-    if not layout:
+    if not layout or "levels" not in layout:
         return PRELUDE + "".join(render_record(rec) for rec in records if rec["name"] not in INNER)
     decls = layout_decls(records, layout)
     deepest = max(l for l, _, _ in decls)
@@ -634,7 +674,7 @@ def idl_text(idl) -> str:
 def apply_layout(ctx, records, layout):
     """The operations every record of the program derives: the model (`c09.deriving`: explicit ∪ default, in every file of
     the import graph) sets `rec["eq"]` / `rec["ord"]`; returns the nested record types with their effective deriving."""
-    if not layout:
+    if not layout or "levels" not in layout:
         return INNER
     decls = layout_decls(records, layout)
     deepest = max(l for l, _, _ in decls)
@@ -668,8 +708,14 @@ def behaviour(ctx, groups, fixed=None):
     drivers (one pool), evaluate. `fixed` = {"pools", "tuples"} replays recorded values instead of drawing them."""
     groups = [(g[0], g[1], g[2] if len(g) > 2 else None) for g in groups]
     inners = [apply_layout(ctx, recs, layout) for _, recs, layout in groups]
-    results = glue.generate_many(ctx.tmp / "bgen", [(behaviour_idl(recs, layout), behaviour_options(ctx, tag, layout, not (layout or {}).get("two_targets")))
-                                                    for tag, recs, layout in groups], targets=("cpp", "java"))
+    plain = [g for g in groups if not (g[2] or {}).get("regen")]
+    res_plain = glue.generate_many(ctx.tmp / "bgen", [(behaviour_idl(recs, layout), behaviour_options(ctx, tag, layout, not (layout or {}).get("two_targets")))
+                                                      for tag, recs, layout in plain], targets=("cpp", "java"))
+    again = [g for g in groups if (g[2] or {}).get("regen")]
+    res_again = regenerate_many(ctx.tmp / "bregen", [(behaviour_idl(layout["regen"]["before"], None), behaviour_idl(recs, None), behaviour_options(ctx, tag, None, False),
+                                                      layout["regen"]["same_context"]) for tag, recs, layout in again])
+    it_plain, it_again = iter(res_plain), iter(res_again)
+    results = [next(it_again) if (g[2] or {}).get("regen") else next(it_plain) for g in groups]
     prepared = [prepare(ctx, recs, tag, res, fixed, layout, inner) for (tag, recs, layout), res, inner in zip(groups, results, inners)]
     jobs = [j for p in prepared for j in p[0]]
     observations = glue.parallel(run_record, jobs, workers=16)
@@ -754,8 +800,8 @@ def prepare(ctx, records, tag, res, fixed=None, layout=None, inner_eff=None):
                     files[f"{sub}/{pth}"] = text
         srcs = [p for dn in needs(rec) + [rec["name"]] for p in infos[dn]["files"].get("cpp", {}) if p.endswith(".cpp")]
         cls = f"Drv{k}"
-        cppd = cpp_driver(rec, info, names, pools, tuples, dec["cppDeclaresEq"], dec["cppDeclaresOrd"]) if "cpp" not in info["errors"] else None
-        javad = java_driver(cls, rec, info, names, pools, tuples, dec["javaHasEquals"], dec["javaHasCompareTo"], dec["javaHasToString"]) if "java" not in info["errors"] else None
+        cppd = cpp_driver(rec, info, names, pools, tuples, dec["cppDeclaresEq"], dec["cppDeclaresOrd"], INNER) if "cpp" not in info["errors"] else None
+        javad = java_driver(cls, rec, info, names, pools, tuples, dec["javaHasEquals"], dec["javaHasCompareTo"], dec["javaHasToString"], INNER) if "java" not in info["errors"] else None
         jobs.append((str(pdir / f"run{k}"), files, srcs, cppd, cls, javad, inc))
         metas.append((rec, info, dec, tuples))
     return jobs, metas, atoms
@@ -770,6 +816,7 @@ def evaluate(ctx, metas, observations, atoms):
         base = {"typename": info["type_names"]["java_typename"], "eq": rec["eq"], "ord": rec["ord"], "javaStringSer": True, "cppStringSer": False,
                 "fields": fields_json(rec, info), "values": [[dv(ty, x, atoms) for ty, x in zip(tys, tup)] for tup in tuples]}
         impl = parse_outputs(obs, len(tuples), dec["cppDeclaresEq"], dec["cppDeclaresOrd"], dec["javaHasCompareTo"])
+        impl["heldFields"] = [n for (n, _), ty in zip(rec["fields"], tys) if comparable(ty, INNER)]
         ereqs.append({**base, "op": "c09.eval"})
         sreqs.append({**base, "op": "c09.spec", "impl": impl})
     models, specs = ctx.driver.batch(ereqs), ctx.driver.batch(sreqs)
@@ -779,7 +826,11 @@ def evaluate(ctx, metas, observations, atoms):
         impl = sreq["impl"]
         cl = clauses_of(rec, INNER) + (name_clauses(rec, info) if (layout or {}).get("names") else [])
         shape = (rec["eq"], rec["ord"], tuple(t for _, t in rec["fields"]))
-        if layout:
+        regen = (layout or {}).get("regen")
+        if regen:
+            shape += ("regenerate", regen["edits"].get(rec["name"]), regen["same_context"])
+            ctx.stat("regenerated_" + str(regen["edits"].get(rec["name"])))
+        elif layout:
             shape += layout_key(rec, layout)
             ctx.stat("layout_default_" + ("+".join(layout["default"]) or "none"))
         ctx.count(key=shape, nontrivial=True, sample={"idl": render_record(rec), "values": tuples[:2]}, n=len(tuples) ** 2)
@@ -788,6 +839,11 @@ def evaluate(ctx, metas, observations, atoms):
         ctx.stat("deriving_" + "+".join(d for d in ("eq", "ord") if rec[d]))
         replay = {"input": {"records": [rec], "tuples": tuples, "pools": atoms["_pools"], **({"layout": layout} if layout else {})},
                   "idl": atoms["_idl"] if layout else PRELUDE + render_record(rec), "clauses": cl, "notes": obs["notes"]}
+        if regen:     # the history of the output directory: what was generated there before, and the edit
+            before = [b for b in regen["before"] if b["name"] == rec["name"]]
+            replay["input"]["layout"] = {"regen": {**regen, "before": before, "edits": {rec["name"]: regen["edits"].get(rec["name"])}}}
+            replay["history"] = {"generated first": PRELUDE + "".join(render_record(b) for b in before), "then, into the same directories": PRELUDE + render_record(rec),
+                                 "edit": regen["edits"].get(rec["name"]), "same configured context": regen["same_context"]}
         # --- judges' verdict on the generated code itself
         fails = []
         for lang, tool in (("cpp", "g++"), ("java", "javac")):
@@ -804,7 +860,8 @@ def evaluate(ctx, metas, observations, atoms):
                 if compiled[f["target"]]:
                     fails.append(f)
         for f in fails:
-            report(ctx, failure_key(f, cl), f"{f['target']}: {f['why']}", {**replay, "failure": f,
+            report(ctx, (f"regenerate:{regen['edits'].get(rec['name'])}:" if regen else "") + failure_key(f, cl),
+                   f"{f['target']}: {f['why']}" + (" — in the code that is on disk after the declaration was edited and generated again into the same directories" if regen else ""), {**replay, "failure": f,
                        "values": [tuples[f["i"]], tuples[f["j"]]] if "i" in f else None})
         # --- correspondence with the model
         diffs = []
@@ -1070,6 +1127,175 @@ def build_layout_groups(ctx):
     return groups
 
 
+# --- the output directory has a history: generate, edit the declaration, generate again into the same directories
+
+EDITS = ["swap-fields", "swap-field-types", "retype-integer", "rename-field-same-length", "swap-fields-same-type", "swap-deriving", "rename-field", "drop-field", "add-field"]
+INT_SAME_WIDTH_NAME = ["i16", "i32", "i64"]          # int16_t / int32_t / int64_t: the C++ files keep their length
+
+
+def edit_record(r: random.Random, rec: dict, edit: str):
+    """the declaration after the edit (same name), or None if this record has no place for it. The first five edits keep
+    the length of the generated C++ (and mostly Java) files: lines are permuted or equally long words exchanged."""
+    f = list(rec["fields"])
+    n = len(f)
+    out = {**rec, "fields": f}
+    pairs = [(i, j) for i in range(n) for j in range(i + 1, n)]
+    if edit == "swap-fields":
+        c = [(i, j) for i, j in pairs if f[i][1] != f[j][1]]
+        if not c:
+            return None
+        i, j = r.choice(c)
+        f[i], f[j] = f[j], f[i]
+    elif edit == "swap-fields-same-type":
+        c = [(i, j) for i, j in pairs if f[i][1] == f[j][1]]
+        if not c:
+            return None
+        i, j = r.choice(c)
+        f[i], f[j] = f[j], f[i]
+    elif edit == "swap-field-types":
+        c = [(i, j) for i, j in pairs if f[i][1] != f[j][1]]
+        if not c:
+            return None
+        i, j = r.choice(c)
+        f[i], f[j] = (f[i][0], f[j][1]), (f[j][0], f[i][1])
+    elif edit == "retype-integer":
+        c = [i for i in range(n) if f[i][1] in INT_SAME_WIDTH_NAME]
+        if not c:
+            return None
+        i = r.choice(c)
+        f[i] = (f[i][0], r.choice([t for t in INT_SAME_WIDTH_NAME if t != f[i][1]]))
+    elif edit in ("rename-field-same-length", "rename-field"):
+        free = [x for x in FIELD_NAMES + ["h", "k2", "m_y", "nn"] if x not in [a for a, _ in f]]
+        i = r.randrange(n)
+        c = [x for x in free if (len(x) == len(f[i][0])) == (edit == "rename-field-same-length") and ("_" in x) == ("_" in f[i][0])]
+        if not c:
+            return None
+        f[i] = (r.choice(c), f[i][1])
+    elif edit == "swap-deriving":
+        ord_ok = all(t in ORD_TYPES for _, t in f)
+        c = [x for x in [(True, False), (False, True), (True, True)] if x != (rec["eq"], rec["ord"]) and (ord_ok or not x[1])]
+        if not c:
+            return None
+        out["eq"], out["ord"] = r.choice(c)
+    elif edit == "drop-field":
+        if n < 2:
+            return None
+        del f[r.randrange(n)]
+    elif edit == "add-field":
+        free = [x for x in FIELD_NAMES if x not in [a for a, _ in f]]
+        if not free:
+            return None
+        f.insert(r.randrange(n + 1), (free[0], r.choice(ORD_TYPES if rec["ord"] else EQ_TYPES)))
+    else:
+        raise ValueError(edit)
+    return out
+
+
+def build_regen_groups(ctx):
+    """Programs of records that are generated, edited (one edit per record, every edit of `EDITS` in rotation) and generated
+    again into the same output directories — by a new API object (a second run of the tool) or by the configured context of
+    the first run. What the compiled drivers are built from and judged by is the *edited* declaration."""
+    r = random.Random(f"{ctx.seed}/c09/regen")
+    groups = []
+    # quick: one program — the five edits that keep the length of the generated files, and two of the four others in rotation
+    nprog = ctx.n(1, 6)
+    plan = EDITS[:5] + [EDITS[5 + (2 * ctx.seed + d) % 4] for d in (0, 1)] if ctx.quick else EDITS
+    per = len(plan)
+    k = 0
+    for gi in range(nprog):
+        before, after, edits = [], [], {}
+        tries = 0
+        while len(after) < per and tries < 200:
+            tries += 1
+            edit = plan[(k + gi) % len(plan)]
+            rec = make_record(r, 0, ["eqord", "eq", "ord"][tries % 3])
+            if edit == "swap-fields-same-type" and len(rec["fields"]) >= 2:      # two fields of one (ordered) type
+                i, j = r.sample(range(len(rec["fields"])), 2)
+                rec["fields"][j] = (rec["fields"][j][0], rec["fields"][i][1])
+            rec["name"] = f"z{gi}_{len(after)}"
+            if clauses_of(rec):
+                continue
+            rec2 = edit_record(r, rec, edit)
+            if rec2 is None or clauses_of(rec2):
+                continue
+            before.append(rec)
+            after.append(rec2)
+            edits[rec["name"]] = edit
+            k += 1
+        groups.append((f"R{gi}", after, {"regen": {"before": before, "edits": edits, "same_context": (gi + ctx.seed) % 2 == 1}, "int_budget": 6, "tuples": 6}))
+    return groups
+
+
+def regen_worker(args):
+    """First run for `idl1` (parse, generate C++ and Java), then `idl2` written over the same file and a second run into
+    the same output directories (`same_context`: the configured context of the first run parses again; otherwise a new API
+    object, as a second run of the tool would be). Returns, shaped like `glue.generate_per_decl`'s result, the declarations of the
+    second parse with the files that are *on disk* at the paths their marshalling objects name."""
+    workdir, idl1, idl2, options, same_context = args
+    import os
+    import traceback
+    from pydjinni import API
+    from pydjinni.exceptions import ApplicationException, ApplicationExceptionList
+    from pydjinni.parser.ast import Enum, Record
+    workdir = Path(workdir)
+    workdir.mkdir(parents=True, exist_ok=True)
+    idl = workdir / "m.djinni"
+    cwd = os.getcwd()
+    os.chdir(workdir)
+    try:
+        idl.write_text(idl1)
+        cctx = API().configure(options=options)
+        g1 = cctx.parse(idl)
+        for t in ("cpp", "java"):
+            g1.generate(t)
+        idl.write_text(idl2)
+        if not same_context:
+            cctx = API().configure(options=options)
+        g2 = cctx.parse(idl)
+        errors = {}
+        for t in ("cpp", "java"):
+            try:
+                g2.generate(t)
+            except Exception as e:
+                errors[t] = type(e).__name__ + ": " + str(e)[:160]
+        out_root = Path(options["generate"]["cpp"]["out"]).parent
+        tree = {sub: glue.snapshot(out_root / sub) for sub in ("cpp", "java", "jni")}
+        decls = []
+        for d in g2.defs:
+            info = {"name": str(d.name), "kind": type(d).__name__.lower(), "errors": dict(errors), "names": {}, "files": {}}
+            for sub in ("cpp", "java", "jni"):
+                m = getattr(d, sub, None)
+                paths = [str(x) for x in (getattr(m, "header", None), getattr(m, "source", None)) if x]
+                info["files"][sub] = {pth: tree[sub][pth] for pth in paths if pth in tree[sub]}
+            if isinstance(d, Enum):
+                info["names"] = {"cpp": [str(i.cpp.name) for i in d.items], "java": [str(i.java.name) for i in d.items]}
+                info["type_names"] = {"cpp": str(d.cpp.name), "java": str(d.java.name), "cpp_typename": str(d.cpp.typename)}
+            if isinstance(d, Record):
+                info["names"] = {"cpp": [str(f.cpp.name) for f in d.fields], "java": [str(f.java.name) for f in d.fields]}
+                info["type_names"] = {"cpp": str(d.cpp.name), "java": str(d.java.name), "cpp_typename": str(d.cpp.typename),
+                                      "java_typename": str(d.java.typename), "cpp_header": str(d.cpp.header)}
+                info["deriving"] = sorted(str(getattr(x, "value", x)) for x in d.deriving)
+            decls.append(info)
+        return {"parse": "ok", "decls": decls}
+    except (ApplicationException, ApplicationExceptionList) as e:
+        return {"parse": type(e).__name__, "diags": [traceback.format_exc()[-800:]], "decls": []}
+    except Exception:
+        return {"parse": "harness-error", "diags": [traceback.format_exc()[-1500:]], "decls": []}
+    finally:
+        os.chdir(cwd)
+
+
+def regenerate_many(base: Path, jobs):
+    """jobs: [(idl1, idl2, options, same_context)] -> results shaped like `glue.generate_many`'s"""
+    import multiprocessing as mp
+    if not jobs:
+        return []
+    import pydjinni  # noqa: F401
+    args = [(str(base / f"r{i}"), a, b, o, sc) for i, (a, b, o, sc) in enumerate(jobs)]
+    with mp.get_context("fork").Pool(max(1, min(12, len(args)))) as pool:
+        return pool.map(regen_worker, args, chunksize=1)
+
+
 # --- field names taken from the generated code itself
 
 NAME_PROBE = PRELUDE + """zq_all = record { zq0: i32; zq1: string; zq2: i32?; zq3: col; zq4: in_a; zq5: binary; zq6: list<i32>; zq7: i64; zq8: bool; zq9: string?; zq10: in_a?; } deriving(eq)
@@ -1226,6 +1452,7 @@ def run(ctx):
     ctx.coverage["rule"] = ("records with 1..5 fields over integers, bool, string, enum, nested records, optionals, lists, binary; deriving eq / ord / both; "
                             "7 (9) random value tuples per record plus, per integer field, copies of the base tuple with adjacent / far-apart values at the extremes and at powers of two (i64: beyond 2^53), all ordered pairs; distinct = distinct (deriving, field type list); plus all 144 combinations of "
                             "deriving x field count x string_serialization x base-record flags for the emission decisions, plus default_deriving (4) x import depth (0..2) x file level x explicit deriving (96); "
+                            "regeneration stream: 7 (54) records generated, edited (9 kinds of edit, 5 of them length-preserving) and generated again into the same directories; every object's fields are read back by name; "
                             "layout stream: every non-empty default_deriving over one / two @import levels (distinct adds default, file level, depth, explicit deriving); name stream: every simple name of the generated record code "
                             "x field kind (distinct adds the field names); evaluations = comparisons run")
     ctx.assumptions += [
@@ -1235,6 +1462,7 @@ def run(ctx):
         "nested record values enter the outer record's model as atoms whose order, hash and string form come from the model's evaluation of the nested record",
         "C++ to_string needs <format> (absent in g++ 12): compared as emitted / not emitted only",
         "name stream: only the C++ / Java / JNI targets are configured (a name reserved in Objective-C or C++/CLI is not refused); field identifier styles are the defaults (Java camelCase, C++ snake_case)",
+        "regeneration stream: two generations (before / after one edit per record), C++ and Java targets, records without known-finding shapes",
         "files of a layout form a chain (root imports sub/l1.djinni imports sub/deep/l2.djinni); a record stands at most as deep as the types it holds",
     ]
     breaks = []
@@ -1251,7 +1479,7 @@ def run(ctx):
     ctx.stats["body_identifier_names"] = names
     ctx.stats["t_names_probe_s"] = round(time.time() - t0, 1)
     t0 = time.time()
-    breaks += behaviour(ctx, [(f"g{gi}", recs) for gi, recs in enumerate(groups)] + corpus_layout_groups() + build_layout_groups(ctx) + build_name_groups(ctx, names))
+    breaks += behaviour(ctx, [(f"g{gi}", recs) for gi, recs in enumerate(groups)] + corpus_layout_groups() + build_layout_groups(ctx) + build_name_groups(ctx, names) + build_regen_groups(ctx))
     ctx.stats["t_behaviour_s"] = round(time.time() - t0, 1)
     ctx.stats["correspondence_breaks"] = len(breaks)
     if breaks and not ctx.violations:
